@@ -61,6 +61,11 @@ pub struct Rec {
     /// when true every unwinding facade call on the tree under test is a violation ("no-abort")
     pub panic_is_violation: bool,
     pub max_samples: usize,
+    /// != 0: parties of this run are (partly) built on the library's alternative public routes (scheme traits,
+    /// `BlsSignature::<C>` constructors, sibling conversions): the value seeds which calls take one
+    pub alt_routes: u64,
+    /// 1 = a seed-drawn half of the calls, 2 = every call that has an alternative route
+    pub alt_mode: u8,
 }
 
 impl Rec {
@@ -83,6 +88,8 @@ impl Rec {
             step: 0,
             panic_is_violation: property == "C17",
             max_samples: 3,
+            alt_routes: 0,
+            alt_mode: 0,
         }
     }
     pub fn active(&self, prop: &str) -> bool {
@@ -145,7 +152,14 @@ impl Rec {
     pub fn call(&mut self, lib: &dyn Lib, g: Grp, op: Op, args: &[&[u8]]) -> Out {
         beat();
         self.stats.lib_calls += 1;
-        let out = crate::exec::call(lib, g, op, args, 0);
+        let route = if self.alt_routes != 0 {
+            let mut z = self.alt_routes ^ self.stats.lib_calls.wrapping_mul(0x9E37_79B9_7F4A_7C15);
+            let h = crate::seams::splitmix(&mut z);
+            if self.alt_mode == 2 || h & 1 == 1 { 1 + ((h >> 8) % 6) as u8 } else { 0 }
+        } else {
+            0
+        };
+        let out = crate::exec::call(lib, g, op, args, 0, route);
         match &out {
             Out::Ok(v) => {
                 for p in v {
@@ -171,7 +185,7 @@ impl Rec {
             if lib.name() == tw.primary {
                 beat();
                 self.stats.lib_calls += 1;
-                let other = crate::exec::call(tw.lib, g, op, args, 1);
+                let other = crate::exec::call(tw.lib, g, op, args, 1, route);
                 if !(tw.exclude)(op, args, &out, &other) {
                     self.twin_compared += 1;
                     self.evals += 1;
